@@ -26,6 +26,57 @@ fn ploc(p: &str) -> String {
     loc.rsplit("/src/").next().unwrap_or(loc).to_string()
 }
 
+/// `PacketHeaders` (decoding into header structs) on a built packet with a fragmenting header: the supplied fragment
+/// fields come back, no transport header is decoded, the payload is an IP payload flagged as fragmented and is a
+/// tail of the packet that ends with the supplied payload. SLL stackings have no `PacketHeaders` door and are skipped.
+fn check_headers(c: &Cfg, o1: &[u8], payload: &[u8], want4: Option<(bool, bool, u16)>, want6: Option<(bool, u16)>, case: &mut Case) -> bool {
+    let who = match c.link {
+        LinkC::None => "PacketHeaders::from_ip_slice",
+        LinkC::Eth => "PacketHeaders::from_ethernet_slice",
+        LinkC::Sll(_) => return true,
+    };
+    case.at(who);
+    case.eval();
+    let parsed = guarded(|| match c.link {
+        LinkC::None => PacketHeaders::from_ip_slice(o1).map_err(|e| format!("{:?}", e)),
+        _ => PacketHeaders::from_ethernet_slice(o1).map_err(|e| format!("{:?}", e)),
+    });
+    let ph = match parsed {
+        Ok(Ok(p)) => p,
+        Ok(Err(e)) => {
+            case.fail("header-decoder-rejects-built-packet:fragmenting", format!("{} -> Err({})", who, truncate(&e, 300)));
+            return false;
+        }
+        Err(p) => {
+            case.fail(format!("panic:parse:{}", ploc(&p)), format!("{} panicked: {}", who, p));
+            return false;
+        }
+    };
+    let got4 = match &ph.net {
+        Some(NetHeaders::Ipv4(h, _)) => Some((h.dont_fragment, h.more_fragments, h.fragment_offset.value())),
+        _ => None,
+    };
+    let got6 = match &ph.net {
+        Some(NetHeaders::Ipv6(_, e)) => e.fragment.as_ref().map(|f| (f.more_fragments, f.fragment_offset.value())),
+        _ => None,
+    };
+    if got4 != want4 || got6 != want6 {
+        case.fail("headers:not-recovered:fragment-fields", format!("supplied v4 (DF, MF, offset) {:?} / v6 (M, offset) {:?}, decoded {:?} / {:?}", want4, want6, got4, got6));
+        return false;
+    }
+    if ph.transport.is_some() {
+        case.fail("headers:transport-decoded-from-fragment", "a transport header was decoded behind a fragmenting header".to_string());
+        return false;
+    }
+    match &ph.payload {
+        PayloadSlice::Ip(p) if p.fragmented && p.payload.len() >= payload.len() && p.payload.len() <= o1.len() && p.payload == &o1[o1.len() - p.payload.len()..] && &p.payload[p.payload.len() - payload.len()..] == payload => true,
+        other => {
+            case.fail("headers:payload-not-recovered:fragmenting", format!("payload is {}", truncate(&format!("{:?}", other), 200)));
+            false
+        }
+    }
+}
+
 pub fn check(c: &Cfg, t: &Tables, payload: &[u8], df: bool, mf: bool, off: u16, case: &mut Case) -> Outcome {
     let plen = payload.len();
     let l = lens(c, t);
@@ -191,6 +242,9 @@ pub fn check(c: &Cfg, t: &Tables, payload: &[u8], df: bool, mf: bool, off: u16, 
     }
     if &behind_ah[l.thdr.min(behind_ah.len())..] != payload {
         case.fail("payload-not-recovered:fragmenting", "the supplied payload is not at the end of the packet".to_string());
+        return Outcome::Bad;
+    }
+    if !check_headers(c, &o1, payload, Some((df, mf, off)), None, case) {
         return Outcome::Bad;
     }
     Outcome::Ok
@@ -361,6 +415,9 @@ pub fn check_v6(c: &Cfg, t: &Tables, payload: &[u8], mf: bool, off: u16, frag_po
     }
     if &o1[o1.len() - plen..] != payload {
         case.fail("payload-not-recovered:fragmenting", "the supplied payload is not at the end of the packet".to_string());
+        return Outcome::Bad;
+    }
+    if !check_headers(c, &o1, payload, None, Some((mf, off)), case) {
         return Outcome::Bad;
     }
     Outcome::Ok
